@@ -329,8 +329,10 @@ func (w *c08World) deliver(nd *c08Node, blk *types.Block, o *c08Obs) {
 	nd.st.Update(root) // rollback
 	for i := len(newBlocks) - 1; i >= 0; i-- {
 		if w.bad[w.id(newBlocks[i].ID())] {
-			// rollforward: executeBlock fails -> cs.Update(old best block); reorg returns the error,
-			// the chain DB is untouched, nothing is saved
+			// rollforward: executeBlock fails -> cs.Update(old best block); reorg's error path restores
+			// the state root and the parameters and calls cs.Update(old best block) once more (fix
+			// 05cfcb8b, F42); the chain DB is untouched, nothing is saved
+			nd.st.Update(best)
 			nd.st.Update(best)
 			o.Res = "reorg_failed"
 			return
